@@ -59,7 +59,7 @@ from cfdppy.exceptions import (
 from cfdppy.mib import CheckTimerProvider, EntityType, RemoteEntityCfgTable
 from cfdppy.user import TransactionFinishedParams, TransactionParams
 
-from .common import _PositiveAckProcedureParams
+from .common import PacketDestination, _PositiveAckProcedureParams, get_packet_destination
 from .defs import (
     _FileParamsBase,
 )
@@ -396,11 +396,9 @@ class SourceHandler:
             raise InvalidTransactionSeqNum(
                 self._params.transaction_seq_num, packet.transaction_seq_num
             )
-        if packet.pdu_type == PduType.FILE_DATA or packet.directive_type in [
-            DirectiveType.METADATA_PDU,
-            DirectiveType.EOF_PDU,
-            DirectiveType.PROMPT_PDU,
-        ]:
+        # This also covers the ACK PDU which acknowledges a Finished PDU: It belongs to the
+        # destination handler like the File Data, Metadata, EOF and Prompt PDU.
+        if get_packet_destination(packet) == PacketDestination.DEST_HANDLER:
             raise InvalidPduForSourceHandler(packet)
         if self._params.transmission_mode == TransmissionMode.UNACKNOWLEDGED and (
             packet.directive_type in (DirectiveType.KEEP_ALIVE_PDU, DirectiveType.NAK_PDU)
